@@ -29,7 +29,7 @@ Extraction "model.ml"
   digest_legacy digest_v0 digest_v1 preimage_legacy preimage_v0 preimage_v1
   spec_legacy_digest spec_v0_digest spec_v1_digest
   ser_header ser_block parse_header parse_block wf_block norm_block
-  v0_ser v0_parse v0_wf v0_wf_core v0_norm v0_canon
+  v0_ser v0_parse v0_wf v0_wf_core v0_norm v0_canon v0_finalize_at
   parse_pset ser_pset wf_pset norm_pset global_tbl input_tbl output_tbl
   go_calc_offset go_sub_scalars go_add_offset sout_of sarg_after sreturns_global
   mkl_build mkl_root mkl_run mkl_claim
